@@ -382,6 +382,28 @@ theorem C11_expansion_dtt_pos (g : Grammar) (decl : Option Ty) (v : Val) (h : v.
     1 ≤ dttSpecE g decl v :=
   dttSpecE_pos g decl v h
 
+/-- memoisation in either depth mode: on a tree whose cached labels are correct, `relabel_nodes`
+returns the labels of the structure, changes nothing but caches, and leaves every cache correct --
+so reused subtrees (mutation, crossover) never carry stale values in expansion mode either -/
+theorem C11_expansion_memo_sound (g : Grammar) (decl : Option Ty) (t : LVal) (h : CachesCorrectE g decl t) :
+    (relabelMemoE g decl t).1 = relabelE g decl t.erase ∧
+    (relabelMemoE g decl t).2.erase = t.erase ∧
+    CachesCorrectE g decl (relabelMemoE g decl t).2 :=
+  memoE_ok g decl t h
+
+/-- one more constructor application on already labelled children keeps the invariant: by induction
+every program built bottom-up by `wrap_result` carries correct labels -/
+theorem C11_expansion_memo_step (g : Grammar) (decl : Option Ty) (t : LVal) (h : CachesCorrectE g decl t) :
+    CachesCorrectE g decl (relabelMemoE g decl t).2 ∧
+    (relabelMemoE g decl (relabelMemoE g decl t).2).1 = relabelE g decl t.erase := by
+  obtain ⟨h1, h2, h3⟩ := memoE_ok g decl t h
+  refine ⟨h3, ?_⟩
+  rw [(memoE_ok g decl _ h3).1, h2]
+
+theorem C11_expansion_memo_fresh (g : Grammar) (decl : Option Ty) (v : Val) :
+    (relabelMemoE g decl (LVal.fresh v)).1 = relabelE g decl v := by
+  rw [(memoE_ok g decl _ (freshE_ok g decl v)).1, erase_fresh]
+
 namespace ExE
 /-- layered hierarchy `Expr ⊃ Atom ⊃ Const ⊃ {Lit}`, `Neg(arg: Expr)`, `Seq(xs: list[Expr])` -/
 def spec : GrammarSpec :=
@@ -418,5 +440,14 @@ private theorem negLit_ok : ArgsMatchTerminality ExE.g ExE.negLit := by
     | exact h.2.2.2
     | (obtain ⟨rfl, -, -, -⟩ := h; exact absurd ht (by decide))
 example := C11_expansion_every_node ExE.g (by decide) ExE.negLit negLit_ok
+/-- a labelled `Lit(2)` (expansion-mode labels 2,2,3) reused under a new, unlabelled `Neg`: the result is the label of the
+structure, charged with the three expansions Expr -> Atom -> Const -> Lit -/
+example :
+    (relabelMemoE ExE.g (some (.cls 0))
+        (.node none 4 0 0 [.node (some ⟨2, 2, 3, [(.cls 3, 1), (.int, 1)]⟩) 3 1 1 [.int 2]])).1.dtt = 6 ∧
+    (relabelE ExE.g (some (.cls 0)) (.node 4 0 0 [.node 3 1 1 [.int 2]])).dtt = 6 ∧
+    (relabelMemoE ExE.g (some (.cls 0))
+        (.node none 4 0 0 [.node (some ⟨2, 2, 3, [(.cls 3, 1), (.int, 1)]⟩) 3 1 1 [.int 2]])).1.nodes = 6 ∧
+    (relabelE ExE.g (some (.cls 0)) (.node 3 1 1 [.int 2])).weighted = 3 := by decide
 
 end GEVerif.C11
